@@ -78,6 +78,8 @@ import fam_iter
 
 
 def c08(run, ctx):
+    fam_iter.iterator_impls(run, ctx)
+    fam_iter.own_matches(run, ctx)
     fam_iter.iter_state_machine(run, ctx, "<Matches as Iterator>::next", "find_iter")
     fam_iter.next_utf8_rule(run, ctx)
 
@@ -90,13 +92,18 @@ PROPS["C08"] = {"fn": c08, "level": "other",
 
 
 def c09(run, ctx):
+    fam_iter.entry_no_bypass(run, ctx)
+    fam_iter.own_matches(run, ctx)
     fam_iter.dispatch_rule(run, ctx)
     fam_iter.iter_state_machine(run, ctx, "<Matches as Iterator>::next", "find_iter")
     fam_iter.iter_state_machine(run, ctx, "<CaptureMatches as Iterator>::next", "captures_iter")
 
 
 def c10(run, ctx):
+    fam_iter.iterator_impls(run, ctx)
     fam_iter.split_rule(run, ctx)
+    fam_iter.own_matches(run, ctx)
+    fam_iter.own_split(run, ctx)
 
 
 def c11(run, ctx):
@@ -214,6 +221,8 @@ from facts import strip_generics as _sg
 
 
 def c01(run, ctx):
+    fam_vm.run_returns(run, ctx)
+    fam_iter.entry_no_bypass(run, ctx)
     fam_tmpl.ctx_rule(run, ctx)
     fam_tmpl.concat_predicates(run, ctx)
     fam_tmpl.visit_delegation_gate(run, ctx)
@@ -264,6 +273,7 @@ def c03(run, ctx):
 
 
 def c12(run, ctx):
+    fam_expand.id_char_rule(run, ctx)
     fam_expand.writers_agree(run, ctx)
     fam_expand.check_rule(run, ctx)
     fam_expand.constructors(run, ctx)
@@ -283,6 +293,8 @@ def c13(run, ctx):
 
 
 def c16(run, ctx):
+    fam_iter.iterator_impls(run, ctx)
+    fam_expand.id_char_rule(run, ctx)
     fam_parse.group_counting(run, ctx)
     fam_parse.names_api(run, ctx)
     fam_xfer.analyzer_rule(run, ctx)
@@ -296,6 +308,7 @@ def c17(run, ctx):
 
 
 def c19(run, ctx):
+    fam_expand.id_char_rule(run, ctx)
     fam_parse.group_counting(run, ctx)
     fam_parse.backref_registration(run, ctx)
     fam_parse.backref_spellings(run, ctx)
@@ -311,6 +324,7 @@ _c15_old = c15
 
 def c05(run, ctx):
     _c05_old(run, ctx)
+    fam_vm.run_returns(run, ctx)
     fam_vm.own_ix(run, ctx)
     fam_vm.end_arm(run, ctx)
     fam_enc.any_arms_rule(run, ctx)
@@ -328,12 +342,14 @@ def c06(run, ctx):
 
 def c07(run, ctx):
     _c07_old(run, ctx)
+    fam_vm.run_returns(run, ctx)
     fam_tmpl.compile_repeat(run, ctx)
     fam_xfer.analyzer_rule(run, ctx)
 
 
 def c15(run, ctx):
     _c15_old(run, ctx)
+    fam_tmpl.ctx_rule(run, ctx)
     fam_parse.conditional_rule(run, ctx)
     fam_enc.any_arms_rule(run, ctx)
     fam_xfer.analyzer_rule(run, ctx)
